@@ -414,3 +414,16 @@ def validated(tr, which=0):
             if a is not None and a[0] == "tuple":
                 return a[1][which]
     return None
+
+
+_dummy = None
+
+
+def sub(base, idx):
+    """Subscript term with the evaluator's simplifications (distribution over gated phis ...)."""
+    global _dummy
+    if _dummy is None:
+        _dummy = Evaluator.__new__(Evaluator)
+    if not isinstance(idx, R):
+        idx = const(idx)
+    return Evaluator.mk_sub(_dummy, base, idx)
